@@ -64,9 +64,9 @@ Profile profile_for(const std::string &c) {
         set(p.w_script, {{REG, 10}, {LIFE, 24}, {MSG, 24}, {SUBS, 16}, {CTX, 24}});
         p.mod_flag_bits = 1 | 2 | 4 | 16 | 32 | 64; p.src_kinds = 0; p.bad_topics = true; p.hooks_all = true;
     } else if (c == "C16") {
-        set(p.w_driver, {{MSG, 50}, {SUBS, 12}, {LIFE, 12}, {STASH, 14}, {BECOME, 4}});
-        set(p.w_script, {{STASH, 50}, {MSG, 24}, {LIFE, 8}, {CTX, 8}, {BECOME, 6}});
-        p.mod_flag_bits = 0; p.src_kinds = 1; p.src_flag_bits = 0; p.sub_flag_bits = 16 | 32 | 64;
+        set(p.w_driver, {{MSG, 44}, {SUBS, 12}, {LIFE, 10}, {STASH, 14}, {BECOME, 4}, {SRC, 8}, {ENV, 8}});
+        set(p.w_script, {{STASH, 50}, {MSG, 22}, {LIFE, 8}, {CTX, 8}, {BECOME, 6}, {ENV, 4}});
+        p.mod_flag_bits = 0; p.src_kinds = 1 | 2; p.src_flag_bits = 1 | 32; p.sub_flag_bits = 1 | 16 | 32 | 64;   // one-shot and high-priority sources too: their events must not be stashable
     } else if (c == "C17") {
         set(p.w_driver, {{MSG, 44}, {BECOME, 30}, {LIFE, 16}, {STASH, 6}});
         set(p.w_script, {{BECOME, 44}, {MSG, 26}, {LIFE, 12}, {CTX, 8}, {STASH, 8}});
@@ -150,7 +150,15 @@ struct Gen {
                 // C09 compares set sizes at call boundaries: a LOW one-shot subscription is consumed when its message is received but the
                 // event is handed over later (with the next invocation), so its membership is not observable in between: not generated there
                 if (camp == "C09" && (fl & 1)) fl &= ~16L;
-                p.add(where, "sub", {rmod(), rtopic(true), fl});
+                long mod = rmod(), topic = rtopic(true);
+                p.add(where, "sub", {mod, topic, fl});
+                // bias: in-flight state around a one-shot subscription - a message pending for it, the topic subscribed again with other
+                // flags meanwhile, the loop asked to quit before the message is dispatched
+                if ((fl & 1) && topic < 5 && r.chance(0.35)) {
+                    p.add(where, "pub", {rmod(), topic, 0});
+                    if (r.chance(0.6)) p.add(where, "sub", {mod, topic, (fl ^ 32) & ~(r.chance(0.5) ? 1L : 0L)});
+                    if (r.chance(0.4)) p.add(where, "ctx_quit", {0});
+                }
             }
             else p.add(where, "unsub", {rmod(), rtopic(true)});
             break;
